@@ -257,13 +257,41 @@ func (c *Config) SetChild(name string, idx int, value *Config, opts ...Option) e
 		return raiseNil(ErrNilValue)
 	}
 	// a config can not become a setting of itself or of a config below itself:
-	// the tree would contain itself
-	for p := c; p != nil; p = p.Parent() {
-		if p == value {
-			return raiseCyclicErr(name)
+	// the tree would contain itself. That goes for c and for the config the
+	// name leads to below c, by the parents they know of and by what is stored
+	// below the child (a config can be stored in more than one place, and it
+	// knows of its first parent only).
+	o := makeOptions(opts)
+	to := parsePathIdx(name, idx, o).container(c, o)
+	for _, start := range []*Config{c, to} {
+		for p := start; p != nil; p = p.Parent() {
+			if p == value {
+				return raiseCyclicErr(name)
+			}
 		}
 	}
+	if to != nil && value.holds(to) {
+		return raiseCyclicErr(name)
+	}
 	return c.setField(name, idx, cfgSub{c: value}, opts)
+}
+
+// holds reports whether cfg is c itself or is stored somewhere below c.
+func (c *Config) holds(cfg *Config) bool {
+	if c == cfg {
+		return true
+	}
+	for _, v := range c.fields.dict() {
+		if sub, ok := v.(cfgSub); ok && sub.c.holds(cfg) {
+			return true
+		}
+	}
+	for _, v := range c.fields.array() {
+		if sub, ok := v.(cfgSub); ok && sub.c.holds(cfg) {
+			return true
+		}
+	}
+	return false
 }
 
 // getField supports the options: PathSep, Env, Resolve, ResolveEnv
